@@ -16,6 +16,7 @@ def queries(tier):
           cs.rv('distance', tier, 2, bound='dim 2, symbolic bounds, every in-bounds pair', backends=('cadical', 'kissat')),
           cs.misc('time_distance', tier, bound='bounded/unbounded, symbolic bounds, every in-bounds pair', backends=('cadical', 'kissat')),
           cs.misc('discrete_distance', tier, bound='symbolic bounds in [-1e6,1e6], every in-bounds triple')]
+    qs.append(cs.compound('metric', tier, bound='3 stub components, symbolic weights incl. zeros, symbolic component distances/extents'))
     if tier == 'thorough':
         qs += [cs.so2('triangle', tier, bound='every in-bounds triple', backends=('cadical', 'kissat', 'minisat'), timeout=1800),
                cs.misc('time_triangle', tier, bound='every in-bounds triple', backends=('cadical', 'kissat', 'minisat'), timeout=1800),
